@@ -19,6 +19,23 @@ void h_bitrate_addblock(void) {
 #elif VERIF_LIMITS == 2
   b->bms.max_bitsper = 0;
 #endif
+#ifdef VERIF_NARROW
+  /* BOUNDED variant: magnitudes narrowed by construction (assigned from short
+     nondeterministic values, so the high bits are constants for the solver):
+     blob sizes < 2^16 bytes, per-block budgets < 2^20 bits, reservoir < 2^24 bits,
+     short_per_long in 1..16 */
+  for (int i = 0; i < PACKETBLOBS; i++) { vbi->packetblob[i]->endbyte = (unsigned short)nondet_long(); }
+  b->bms.min_bitsper = nondet_long() & 0xfffff;
+  b->bms.max_bitsper = nondet_long() & 0xfffff;
+  b->bms.short_per_long = 1 + (nondet_long() & 15);
+  ci->bi.reservoir_bits = nondet_long() & 0xffffff;
+  b->bms.minmax_reservoir = nondet_long() & 0xffffff;
+#if VERIF_LIMITS == 1
+  b->bms.min_bitsper = 0;
+#elif VERIF_LIMITS == 2
+  b->bms.max_bitsper = 0;
+#endif
+#endif
   g_R0 = b->bms.minmax_reservoir;
   vorbis_bitrate_addblock(vb);
 }
